@@ -3,7 +3,9 @@
 package headers
 
 import (
+	"bytes"
 	"context"
+	"encoding/binary"
 	"math/big"
 
 	"github.com/tokenized/pkg/bitcoin"
@@ -106,5 +108,25 @@ func (repo *Repository) VerifMockPruned(ctx context.Context, header *wire.BlockH
 	repo.heights[branch.headers[0].Hash] = height
 	repo.branches = Branches{branch}
 	repo.longest = branch
+
+	// The header file that the pruned history shares with this header, as an earlier save would
+	// have left it. The pruned headers themselves are not known: their slots repeat this header.
+	fileHeight := (height / headersPerFile) * headersPerFile
+	if height > fileHeight {
+		buf := &bytes.Buffer{}
+		if err := binary.Write(buf, endian, headersVersion); err != nil {
+			return errors.Wrap(err, "version")
+		}
+		for h := fileHeight; h < height; h++ {
+			if err := branch.headers[0].Serialize(buf); err != nil {
+				return errors.Wrap(err, "serialize")
+			}
+		}
+		if err := repo.store.Write(ctx, headersFilePath(height/headersPerFile), buf.Bytes(),
+			nil); err != nil {
+			return errors.Wrap(err, "write")
+		}
+	}
+
 	return nil
 }
